@@ -23,20 +23,17 @@ Rec(a, o) == hist' = Append(hist, a) /\ obs' = o /\ ohist' = Append(ohist, o)
 Can == Len(hist) < MaxSteps
 
 Update(item, v) ==
-             /\ Can
+             /\ Can /\ (Reduced => (item = "jaxtyping_disable" /\ v \in {"bool:True", "bool:False"}))
              /\ LET p == IF item = "jaxtyping_nosuchitem" THEN "ValueError" ELSE ParseSwitch(v) IN
                 /\ dis' = IF p = "on" THEN TRUE ELSE IF p = "off" THEN FALSE ELSE dis
                 /\ Rec([op |-> "update", item |-> item, v |-> v], IF p = "ValueError" THEN "ValueError" ELSE "ok")
              /\ UNCHANGED fn
-Decorate(k) == /\ Can /\ fn' = k /\ UNCHANGED dis /\ Rec([op |-> "decorate", kind |-> k], "ok")
+Decorate(k) == /\ Can /\ (Reduced => k = "plain") /\ fn' = k /\ UNCHANGED dis /\ Rec([op |-> "decorate", kind |-> k], "ok")
 CallRes(typed) == IF dis \/ fn \in {"ntc_above", "ntc_below"} THEN "ok" ELSE IF typed = "ill" THEN "TCE" ELSE "ok"
 Call(typed) == /\ Can /\ fn # "none" /\ UNCHANGED <<dis, fn>> /\ Rec([op |-> "call", typed |-> typed], CallRes(typed))
 \* the canonical item name with every spelling of the value; the other item names with two values
-NextReduced == Update("jaxtyping_disable", "bool:True") \/ Update("jaxtyping_disable", "bool:False") \/ Decorate("plain")
-               \/ Call("well") \/ Call("ill")
-NextFull == (\E v \in Spellings : Update("jaxtyping_disable", v))
+Next == (\E v \in Spellings : Update("jaxtyping_disable", v))
         \/ (\E item \in ItemNames \ {"jaxtyping_disable"}, v \in {"bool:True", "0"} : Update(item, v)) \/ (\E k \in FnKinds : Decorate(k)) \/ (\E t \in {"well", "ill"} : Call(t))
-Next == IF Reduced THEN NextReduced ELSE NextFull
 Spec == Init /\ [][Next]_vars
 
 DisabledIsPlain == (obs = "TCE") => ~dis
